@@ -9,6 +9,7 @@ CONSTANTS
   Ops = {"create", "delete", "obs"}
   Faults = {}
   Script <- NoScript
+  CopyKeep = {}
 VIEW View
 INVARIANT TypeOK
 INVARIANT NameUnique
